@@ -41,7 +41,7 @@ CONFIG = {
     'quick': {'shards': 16, 'cases': 20, 'timeout': 600, 'floor': 80},
     'thorough': {'shards': 32, 'cases': 360, 'timeout': 5400, 'floor': 3000},
 }
-REQUIRED = ['op_snapshot', 'op_restore', 'op_read', 'kill_points_executed', 'kill_states_loaded', 'model_comparisons', 'npload_checks', 'kind_array', 'kind_store', 'kind_pool',
+REQUIRED = ['histories_with_column_major_batches', 'op_snapshot', 'op_restore', 'op_read', 'kill_points_executed', 'kill_states_loaded', 'model_comparisons', 'npload_checks', 'kind_array', 'kind_store', 'kind_pool',
             'op_append', 'op_overwrite', 'op_delete', 'op_flush', 'op_reopen', 'op_pickle', 'kills_during_truncate', 'kills_during_write']
 
 DTYPES = ['<f8', '<f4', '<i8', '<i4', '|i1', '|u1', '|b1', '<c16']
@@ -106,6 +106,7 @@ def gen_history(rng):
     kind = str(rng.choice(['array', 'store', 'store', 'pool']))
     h = {'kind': kind, 'dtype': str(rng.choice(DTYPES)), 'row': [int(x) for x in ROWS[int(rng.integers(len(ROWS)))]],
          'bs': int(rng.integers(1, 6)), 'ops': []}
+    h['forder'] = bool(rng.random() < 0.3)
     n = int(rng.integers(5, 15))
     st = {'nb': 0, 'phys': 0, 'flushed': False, 'snap': None, 'min_since_snap': 0}
     ops = h['ops']
@@ -193,12 +194,16 @@ def mkbatch(h, seed, node=0):
     shape = (h['bs'],) + tuple(h['row'])
     dt = np.dtype(h['dtype'])
     if dt.kind == 'b':
-        return r.rand(*shape) > 0.5
-    if dt.kind == 'c':
-        return (r.randn(*shape) + 1j * r.randn(*shape)).astype(dt)
-    if dt.kind in 'iu':
-        return r.randint(0, 100, size=shape).astype(dt)
-    return r.randn(*shape).astype(dt)
+        b = r.rand(*shape) > 0.5
+    elif dt.kind == 'c':
+        b = (r.randn(*shape) + 1j * r.randn(*shape)).astype(dt)
+    elif dt.kind in 'iu':
+        b = r.randint(0, 100, size=shape).astype(dt)
+    else:
+        b = r.randn(*shape).astype(dt)
+    if h.get('forder') and b.ndim >= 2:
+        b = np.asfortranarray(b)          # same values, column-major memory layout (e.g. a simulator returning x.T)
+    return b
 
 
 NODES = ['a', 'b']
@@ -456,6 +461,7 @@ def kill_run(h, d, k, phase):
 
 def run_case(ctx, h):
     ctx.event('kind_' + h['kind'])
+    ctx.event('histories_with_column_major_batches', bool(h.get('forder')) and len(h['row']) >= 1 and h['bs'] > 1)
     base = tempfile.mkdtemp(prefix='c06-')
     try:
         d0 = os.path.join(base, 'count')
